@@ -44,5 +44,20 @@ Lemma sources_tie :
   Gen_C09.src_torch_representation_angle_AngleRepresentation = C09_Src.torch_representation_angle_AngleRepresentation /\
   Gen_C09.src_torch_representation_inner_angle_InnerAngleRepresentation = C09_Src.torch_representation_inner_angle_InnerAngleRepresentation /\
   Gen_C09.src_torch_representation_point_line_distance_PointLineDistanceRepresentation = C09_Src.torch_representation_point_line_distance_PointLineDistanceRepresentation /\
-  Gen_C09.src_torch_representation_points_PointsRepresentation = C09_Src.torch_representation_points_PointsRepresentation.
+  Gen_C09.src_torch_representation_points_PointsRepresentation = C09_Src.torch_representation_points_PointsRepresentation /\
+  Gen_C09.src_utils_fast_math = C09_Src.utils_fast_math.
+Proof. repeat split; reflexivity. Qed.
+(* the statistics of the TensorFlow masked tensor and the distance helper, method by method: what model/C09_TfNorm.v
+   transcribes ([tfmean], [tfvariance], [tfstd], [tffixnan], the distance lines of [tf_normalize]) *)
+Lemma tf_statistics_tie :
+  src_of "mean" Gen_C09.src_tensorflow_masked_tensor_MaskedTensor =
+    ["mt_sum = tf.math.reduce_sum(self.zero_filled(), axis=axis, keepdims=keepdims)"; "mt_count = tf.math.reduce_sum(tf.cast(self.mask, mt_sum.dtype), axis=axis, keepdims=keepdims)"; "tensor = tf.math.divide(mt_sum, mt_count)"; "mask = tf.cast(mt_count, tf.bool)"; "mt = MaskedTensor(tensor=tensor, mask=mask)"; "return mt.fix_nan()"] /\
+  src_of "variance" Gen_C09.src_tensorflow_masked_tensor_MaskedTensor =
+    ["means = self.mean(axis=axis, keepdims=True)"; "diff = self - means"; "squared_deviations = diff.square()"; "return squared_deviations.mean(axis=axis)"] /\
+  src_of "std" Gen_C09.src_tensorflow_masked_tensor_MaskedTensor =
+    ["variance = self.variance(axis=axis)"; "return variance.sqrt()"] /\
+  src_of "fix_nan" Gen_C09.src_tensorflow_masked_tensor_MaskedTensor =
+    ["self.tensor = tf.where(tf.math.is_finite(self.tensor), self.tensor, tf.zeros_like(self.tensor))"; "return self"] /\
+  src_of "distance_batch" Gen_C09.src_utils_fast_math =
+    ["squared = (p1s - p2s) ** 2"; "summed = squared.sum(axis=-1)"; "return summed ** 0.5"].
 Proof. repeat split; reflexivity. Qed.
